@@ -217,6 +217,11 @@ pub(crate) fn run_scenario(cfg: &Cfg, ops: &[Kind], script: &[Act], session_pres
         let x = r.h.write_completion(); r.step(x, "wc CONNECT 3")?;
         let x = r.h.connack(session_present, rm); r.step(x, "connack 3")?;
         r.acked_upto = r.h.sent_this_connection.len();
+        {
+            let s = &r.h.ps;
+            let asc = |q: &VecDeque<u64>| q.iter().zip(q.iter().skip(1)).all(|(a, b)| a < b);
+            if !asc(&s.user_operation_queue) || !asc(&s.resubmit_operation_queue) { return Err(format!("C10 third connection: queues not in submission order (resubmit {:?}, user {:?})", s.resubmit_operation_queue, s.user_operation_queue)); }
+        }
         for q in [&r.h.ps.user_operation_queue, &r.h.ps.resubmit_operation_queue] {
             let mut seen = HashSet::new();
             for id in q.iter() { if !seen.insert(*id) { return Err(format!("C04/C01 operation {} queued twice after the second reconnect", id)); } }
@@ -334,6 +339,22 @@ fn engine_closed_connack_reset_contracts() {
                 if failures.len() < 40 { failures.push(format!("policy={:?} retries={:?} session_present={} ops={:?} script={:?} second_script={:?} :: {}", policy, retry, session, ops, a, b, e)); }
             }
         } } }
+    } } }
+    // two in-flight publishes across two interruptions (C10: retransmission order after an interrupted retransmission)
+    let pubs = [Kind::Pub1, Kind::Pub2];
+    let s1b = sequences(&ACTS, 2, 0);
+    for a0 in pubs { for b0 in pubs { for session in [true, false] {
+        let cfg = Cfg { policy: OfflineQueuePolicy::PreserveAll, drain: PostReconnectQueueDrainPolicy::None, mode: ProtocolMode::Mqtt5, retries: None, keep_alive: None, ack_timeout: None };
+        for a in &s1b { for b in &s2 {
+            cases += 1;
+            if let Err(e) = run_scenario(&cfg, &[a0, b0], a, session, Some(1), b) {
+                if failures.len() < 40 { failures.push(format!("two-publish second cycle: session_present={} ops={:?} script={:?} second_script={:?} :: {}", session, [a0, b0], a, b, e)); }
+            }
+            cases += 1;
+            if let Err(e) = run_scenario(&cfg, &[a0, b0], a, session, None, b) {
+                if failures.len() < 40 { failures.push(format!("two-publish second cycle: session_present={} ops={:?} script={:?} second_script={:?} rm=None :: {}", session, [a0, b0], a, b, e)); }
+            }
+        } }
     } } }
     println!("BOUNDED engine_closed_connack_reset_contracts cases={} bound=ops<={} script<={} x4 policies x2 drain x2 versions x{} retry limits x2 session", cases, n_ops, n_script, retries.len());
     for f in &failures { println!("BOUNDED-FAIL engine_closed_connack_reset_contracts {}", f); }
